@@ -54,6 +54,10 @@ func (packet *Packet) ReadFrom(ctx context.Context, reader io.Reader, timeout ti
 
 	totalBytes += n
 
+	if packet.Header.Length < PacketHeaderSize {
+		return totalBytes, fmt.Errorf("invalid packet length %d in header", packet.Header.Length)
+	}
+
 	packet.Data = make([]byte, packet.Header.Length-PacketHeaderSize)
 
 	// The timeout will be refreshed (replaced) on every successful
